@@ -10,8 +10,8 @@
    output.  Python dicts are insertion-ordered association lists: `dset` is `d[k] = v` (in place when the key exists,
    appended otherwise).
 
-   Two repair flags (both false = the code as it is): fx_displaced = proposed_fixes/C07_initializer_name_clash.diff,
-   fx_owner = proposed_fixes/C07_new_domain_in_function_subgraph_imports.diff (net effect at the end of a sweep).
+   Two repair flags (both false = the code as it is): fx_displaced = proposed_fixes/ready/C07_01_initializer_name_clash.diff,
+   fx_owner = proposed_fixes/ready/C07_03_new_domain_in_function_subgraph_imports.diff (net effect at the end of a sweep).
 
    No proofs in this file. *)
 From Coq Require Import List String ZArith Bool Arith DecimalString.
@@ -329,7 +329,7 @@ Definition fn_okb (d : delta) (a : app) (s : graph) (ov : option string) (cmap :
     (* the body is the matched nodes in graph order behind the copied constants, and the call node carries the overload *)
     list_eqb node_eqb (fq_body q) (fn_body cmap cattrs (sel (a_mask a) (g_nodes s))) &&
     (* used_domains: the domains of the matched nodes (of the whole body with
-       proposed_fixes/C07_as_function_constant_default_domain_import.diff) *)
+       proposed_fixes/ready/C07_04_as_function_constant_default_domain_import.diff) *)
     (list_eqb String.eqb (fq_used q) (map n_dom (sel (a_mask a) (g_nodes s))) ||
      list_eqb String.eqb (fq_used q) (map n_dom (fq_body q))) &&
     match a_new a with
